@@ -335,6 +335,8 @@ def compile_dropin_refuses_whole_unit(ctx):
                   "only successfully merged copies enter the unit", "a refused or unmerged ruleset enters the unit")
 
 def run(ctx):
+    from .C14 import every_add_event_is_handed_on
+    every_add_event_is_handed_on(ctx, "C13")
     compile_keeps_nothing_between_calls(ctx, "C13")
     dropin_unit_holds_merged_targets(ctx)
     dropins_leave_only_through_remove(ctx)
